@@ -1086,3 +1086,245 @@ func ruleMuxOnlyGRPC(c *Ctx) {
 		c.R.Undecided("R-SIB/switch", f.Name, "server muxer", "no call of grpcmux.NewGRPCServerMuxer found in Serve")
 	}
 }
+
+// ---------- R-SIB/wire: both ends of the net/rpc broker handshake agree on the encoding ----------
+
+// ruleWireAgreement — the id and its ack travel as a fixed-size integer written
+// and read with encoding/binary. All such reads and writes in the module use
+// the same byte order and the same integer type (uint32), so that what Dial
+// writes is what Run reads and what Accept acknowledges is what Dial compares.
+func ruleWireAgreement(c *Ctx) {
+	p := c.P
+	orders := map[string]int{}
+	types_ := map[string]int{}
+	n := 0
+	var first string
+	for _, f := range p.Funcs {
+		if !notTesting(p, f) {
+			continue
+		}
+		info := f.Pkg.TypesInfo
+		for _, call := range f.Calls() {
+			nm := p.CalleeName(f, call)
+			if nm != "encoding/binary.Read" && nm != "encoding/binary.Write" || len(call.Args) != 3 {
+				continue
+			}
+			n++
+			o := objFullName(objOfExpr(info, call.Args[1]))
+			orders[o]++
+			t := info.TypeOf(call.Args[2])
+			ts := ""
+			if t != nil {
+				ts = strings.TrimPrefix(t.String(), "*")
+			}
+			types_[ts]++
+			if first == "" {
+				first = p.Pos(call)
+			}
+		}
+	}
+	if n < 4 {
+		c.R.Undecided("R-SIB/wire", "", "instance-floor", fmt.Sprintf("only %d encoding/binary reads/writes found, 4 expected (id write/read, ack write/read)", n))
+		return
+	}
+	if len(orders) == 1 && len(types_) == 1 {
+		c.R.Hold("R-SIB/wire", first, "", "id/ack wire encoding agrees on both ends", fmt.Sprintf("%d reads/writes, one byte order, one integer type", n), true)
+	} else {
+		c.R.Violate("R-SIB/wire", first, "", "id/ack wire encoding agrees on both ends", fmt.Sprintf("the id/ack reads and writes do not all use the same byte order and integer type (orders %v, types %v): the peer decodes a different id than was sent", orders, types_), nil)
+	}
+}
+
+// ---------- R-ID/knock protocol table ----------
+
+// ruleKnockTable — the multiplexing knock handshake uses two message shapes:
+// request {Knock:true, Ack:false} and acknowledgement {Knock:true, Ack:true}
+// (a plain connection-info message has Knock == nil). Senders build them as
+// literals; receivers classify them with boolean conditions. The rule
+// evaluates every such condition on the literals the other side sends:
+//   Run's "this is a knock request" test: true for the request literal, false
+//     for the ack literal and for a plain message;
+//   listenForKnocks' rejection test: false for the request, true for the ack;
+//   knock's rejection test: false for the ack, true for the request.
+func ruleKnockTable(c *Ctx) {
+	p := c.P
+	type lit struct{ knock, ack bool }
+	// sender literals
+	lits := map[string]lit{}
+	for _, nm := range []string{"GRPCBroker.knock", "GRPCBroker.listenForKnocks"} {
+		f := p.Fn(nm)
+		if f == nil {
+			c.R.Undecided("R-ID/knock", nm, "anchor", "function not found")
+			return
+		}
+		info := f.Pkg.TypesInfo
+		ast.Inspect(f.Body, func(x ast.Node) bool {
+			cl, ok := x.(*ast.CompositeLit)
+			if !ok {
+				return true
+			}
+			t := info.TypeOf(cl)
+			if t == nil || !strings.HasSuffix(t.String(), "internal/plugin.ConnInfo_Knock") {
+				return true
+			}
+			l := lit{}
+			for _, el := range cl.Elts {
+				kv, ok := el.(*ast.KeyValueExpr)
+				if !ok {
+					continue
+				}
+				k, _ := kv.Key.(*ast.Ident)
+				v, _ := ast.Unparen(kv.Value).(*ast.Ident)
+				if k == nil || v == nil {
+					continue
+				}
+				switch k.Name {
+				case "Knock":
+					l.knock = v.Name == "true"
+				case "Ack":
+					l.ack = v.Name == "true"
+				}
+			}
+			lits[nm] = l
+			return true
+		})
+	}
+	req, okReq := lits["GRPCBroker.knock"]
+	ack, okAck := lits["GRPCBroker.listenForKnocks"]
+	if !okReq || !okAck {
+		c.R.Undecided("R-ID/knock", "", "knock message literals", "the request literal in knock or the acknowledgement literal in listenForKnocks was not found")
+		return
+	}
+	if req.knock && !req.ack && ack.knock && ack.ack {
+		c.R.Hold("R-ID/knock", p.Pos(p.Fn("GRPCBroker.knock").Node()), "GRPCBroker.knock", "knock message shapes", "request {Knock:true, Ack:false}, acknowledgement {Knock:true, Ack:true}", true)
+	} else {
+		c.R.Violate("R-ID/knock", p.Pos(p.Fn("GRPCBroker.knock").Node()), "GRPCBroker.knock", "knock message shapes", fmt.Sprintf("the knock request is sent as %+v and the acknowledgement as %+v; the handshake needs request {true,false} and acknowledgement {true,true}", req, ack), nil)
+	}
+	type env struct {
+		nilKnock, knock, ack bool
+	}
+	var eval func(f *Func, e ast.Expr, v env) (bool, bool)
+	eval = func(f *Func, e ast.Expr, v env) (bool, bool) {
+		info := f.Pkg.TypesInfo
+		e = ast.Unparen(p.Deref(f, e))
+		switch x := e.(type) {
+		case *ast.UnaryExpr:
+			if x.Op == token.NOT {
+				r, ok := eval(f, x.X, v)
+				return !r, ok
+			}
+		case *ast.BinaryExpr:
+			switch x.Op {
+			case token.LAND, token.LOR:
+				a, ok1 := eval(f, x.X, v)
+				// short-circuit: the right operand is not evaluated (a nil Knock is never dereferenced)
+				if x.Op == token.LAND && ok1 && !a {
+					return false, true
+				}
+				if x.Op == token.LOR && ok1 && a {
+					return true, true
+				}
+				b, ok2 := eval(f, x.Y, v)
+				if x.Op == token.LAND {
+					return a && b, ok1 && ok2
+				}
+				return a || b, ok1 && ok2
+			case token.EQL, token.NEQ:
+				if isNilIdent(info, x.Y) {
+					if fv := SelField(info, x.X); fv != nil && fv.Name() == "Knock" {
+						if x.Op == token.EQL {
+							return v.nilKnock, true
+						}
+						return !v.nilKnock, true
+					}
+				}
+				if id, ok := ast.Unparen(x.Y).(*ast.Ident); ok && (id.Name == "true" || id.Name == "false") {
+					r, ok2 := eval(f, x.X, v)
+					want := id.Name == "true"
+					if x.Op == token.NEQ {
+						want = !want
+					}
+					return r == want, ok2
+				}
+			}
+		case *ast.SelectorExpr:
+			if fv := SelField(info, x); fv != nil {
+				if inner := SelField(info, x.X); inner != nil && inner.Name() == "Knock" {
+					if v.nilKnock {
+						return false, false // would dereference nil
+					}
+					switch fv.Name() {
+					case "Knock":
+						return v.knock, true
+					case "Ack":
+						return v.ack, true
+					}
+				}
+			}
+		}
+		return false, false
+	}
+	// the condition of the if statement in f that mentions .Knock.Ack
+	condOf := func(f *Func) ast.Expr {
+		var out ast.Expr
+		ast.Inspect(f.Body, func(x ast.Node) bool {
+			ifs, ok := x.(*ast.IfStmt)
+			if !ok || out != nil {
+				return true
+			}
+			mentions := false
+			ast.Inspect(p.Deref(f, ifs.Cond), func(y ast.Node) bool {
+				if se, ok := y.(*ast.SelectorExpr); ok && se.Sel.Name == "Ack" {
+					mentions = true
+				}
+				return true
+			})
+			if mentions {
+				out = ifs.Cond
+			}
+			return true
+		})
+		return out
+	}
+	reqEnv := env{false, true, false}
+	ackEnv := env{false, true, true}
+	plainEnv := env{true, false, false}
+	type expect struct {
+		fn   string
+		what string
+		envs []env
+		want []bool
+	}
+	for _, ex := range []expect{
+		{"GRPCBroker.Run", "Run routes knock requests to the accept side and everything else to the dial side", []env{reqEnv, ackEnv, plainEnv}, []bool{true, false, false}},
+		{"GRPCBroker.listenForKnocks", "listenForKnocks accepts requests and rejects acknowledgements", []env{reqEnv, ackEnv}, []bool{false, true}},
+		{"GRPCBroker.knock", "knock accepts acknowledgements and rejects requests", []env{ackEnv, reqEnv}, []bool{false, true}},
+	} {
+		f := p.Fn(ex.fn)
+		if f == nil {
+			c.R.Undecided("R-ID/knock", ex.fn, "anchor", "function not found")
+			continue
+		}
+		cond := condOf(f)
+		if cond == nil {
+			c.R.Undecided("R-ID/knock", ex.fn, ex.what, "no condition on the Ack flag found")
+			continue
+		}
+		okAll, decided := true, true
+		for i, ev := range ex.envs {
+			r, ok := eval(f, cond, ev)
+			if !ok {
+				decided = false
+			} else if r != ex.want[i] {
+				okAll = false
+			}
+		}
+		switch {
+		case !decided:
+			c.R.Undecided("R-ID/knock", ex.fn, ex.what, "the classification condition `"+exprStr(cond)+"` is not a boolean combination of Knock == nil, Knock.Knock and Knock.Ack")
+		case okAll:
+			c.R.Hold("R-ID/knock", p.Pos(cond), f.Name, ex.what, "`"+exprStr(cond)+"` evaluated on the literals the other side sends", true)
+		default:
+			c.R.Violate("R-ID/knock", p.Pos(cond), f.Name, ex.what, "the condition `"+exprStr(cond)+"` misclassifies the messages the other side sends (request {Knock:true,Ack:false}, acknowledgement {Knock:true,Ack:true}, plain message Knock==nil): the knock handshake cannot complete, or a message reaches the wrong side's pending table", nil)
+		}
+	}
+}
